@@ -17,22 +17,36 @@ MANIFEST = {
             "representable steps apart, both signs, around zero, subnormals, the subnormal/normal border, tiny and "
             "huge normal values, binade borders, around 1.0, f64::MAX, plus seeded random bit patterns) are compared "
             "in all pairs with all eight forms, sorted, deduplicated, searched with and without the value present, "
-            "and used as components of Pareto-compared vectors. The ideal "
+            "and used as components of Pareto-compared vectors. Arithmetic on operands of extreme magnitude is "
+            "judged by VALUE (mode sci): floats with at most 9 significant bits over the whole exponent range of f64 "
+            "(smallest subnormals, f64::MIN_POSITIVE, square roots of the extremes, the binades next to f64::MAX) are "
+            "named by an order-preserving integer from which the spec recovers exponent and significand and computes "
+            "every sum, difference, product and quotient itself (exact result, round to nearest / ties to even at "
+            "2^-1074, overflow; a finite result with more significant bits is judged by its sign). TLC checks that "
+            "this lattice arithmetic is correctly rounded arithmetic over all pairs of values of four small formats "
+            "(SciLaws, stated on scaled integers) and the algebraic identities x*1, x/1, x/x, x-x, x+x=2x, x/2=x*0.5 "
+            "over f64's range (SciIdentities); every transition of the model over 13 extreme operands is replayed, and "
+            "a systematic sweep (41 objectives x 64 scalars, neg / add / sub / mul / div) plus seeded chains of "
+            "operations are validated record by record, so a quotient or product that is legal numerically but comes "
+            "out NaN, infinite or differently rounded through another operation order is rejected. The ideal "
             "arithmetic never hands out an illegal value; the derived operators of the code do — one known finding "
-            "per (operator, operand classes).",
+            "per (operator, operand classes), accepted only with exactly the IEEE result.",
     "technique": "TLA+ spec + TLC model checking + TLC trace validation of replayed transition tours and seeded float-grid runs",
     "design_ref": "DESIGN.md §6 C09",
     "note": "arithmetic on arbitrary floats is judged by class (sound class-level IEEE table AbsOp, linked to the exact "
-            "model by AbsSound); order facts on arbitrary floats go through the dense-rank projection",
+            "model by AbsSound); order facts on arbitrary floats go through the dense-rank projection; arithmetic is "
+            "judged by value on small integers (mode exact) and on the 9-bit lattice over f64's exponent range (mode "
+            "sci; scalars -0.0 and sums of operands 53 or 54 binades apart stay at class level)",
 }
 
 PROPS = "LegalReplies ConstructionExact CmpSound SortMinMaxSound EqualityExact ParetoSound"
 INF = 1000000
 
 
-def consts(m, b, maxlist, vecdom, maxvec):
-    return ("CONSTANTS\n  M = %d\n  B = %d\n  MaxList = %d\n  VecDom = {%s}\n  MaxVec = %d\n"
-            % (m, b, maxlist, ", ".join(map(str, vecdom)), maxvec))
+def consts(m, b, maxlist, vecdom, maxvec, sci=(), scineg=()):
+    return ("CONSTANTS\n  M = %d\n  B = %d\n  MaxList = %d\n  VecDom = {%s}\n  MaxVec = %d\n  SciIn = {%s}\n"
+            "  SciNeg = {%s}\n" % (m, b, maxlist, ", ".join(map(str, vecdom)), maxvec,
+                                  ", ".join(map(str, sci)), ", ".join(map(str, scineg))))
 
 
 def cfg_mc(c, export):
@@ -42,6 +56,30 @@ def cfg_mc(c, export):
     else:
         s += "INVARIANT TypeOK Legal TotalOrder\nPROPERTY %s\n" % PROPS
     return s + "CHECK_DEADLOCK FALSE\n"
+
+
+def lat(e, f=0):
+    """Code of the lattice float 2^e (1 + f / 256) in mode "sci" (Objective.tla, LCode over F64)."""
+    return (e + 1074) * 256 + f + 1
+
+
+def sci_inputs(q):
+    """Operands of extreme magnitude offered to the model in mode "sci": (positive codes, those also negated)."""
+    pos = [lat(-1074), lat(-1073, 128), lat(-1022), lat(-1022, 128), lat(-537), lat(0), lat(0, 128), lat(512),
+           lat(1023), lat(1023, 255)]
+    neg = [lat(-1074), lat(0), lat(1023)]
+    if not q:
+        pos += [lat(-1072, 64), lat(-1023, 255), lat(-538), lat(1, 128), lat(511), lat(1022, 128)]
+        neg += [lat(-1022), lat(0, 128), lat(512), lat(1023, 255)]
+    return pos, neg
+
+
+def cfg_sci(q):
+    """Design check and transition export of mode "sci" in one single-worker run."""
+    pos, neg = sci_inputs(q)
+    return ("SPECIFICATION Spec\n" + consts(1, 2, 2, [0], 1, pos, neg) + "VIEW McView\n"
+            "INVARIANT TypeOK Legal TotalOrder\nPROPERTY LegalReplies ConstructionExact SciIdentities\n"
+            "ACTION_CONSTRAINT PrintEdge\nCHECK_DEADLOCK FALSE\n")
 
 
 def known_ids(ctx):
@@ -70,14 +108,25 @@ RULE = ("cases = public calls of SingleObjective / MultiObjective (construction,
         "operators, the eight comparison forms, min/max, sort, iterator min/max, dedup, contains/position, "
         "binary search, is_finite, value, Pareto "
         "comparison forms) executed on the real types with operands obtained through the API; generated by (B) a "
-        "transition tour over every transition of the bounded TLC model (exact small floats) and (C) a systematic "
-        "operand-class sweep plus seeded runs over a float grid and random bit patterns (dense-rank projection); "
+        "transition tour over every transition of the bounded TLC models (exact small floats; lattice floats of "
+        "extreme magnitude) and (C) a systematic operand-class sweep plus seeded runs over a float grid and random "
+        "bit patterns (dense-rank projection) and a systematic sweep plus seeded operation chains over lattice "
+        "floats of extreme magnitude; "
         "non-trivial = obtained a new value, was refused/failed, returned an illegal value, or answered an "
         "order/dominance question; distinct = distinct (set of obtained values, call) pairs")
 
 
 def validate(ctx, trace, name, meta):
-    ok = ctx.validate("Trace_Objective", cfg_trace(ctx), trace, name, DESCRIBE, meta, max_rejections=6)
+    # Which deviations are tolerated is decided by the spec alone (KFStep: exactly the raw IEEE result, for the listed
+    # (operator, operand classes)); a record TLC rejects is therefore never excused by the field matching of
+    # known_findings.json, whose `match` objects only name the classes (a wrong NUMBER of a listed class would pass).
+    saved = ctx.known
+    ctx.known = dict(saved, findings=[dict(k, match=dict(k.get("match", {}), **{"act.op": "(decided by the spec)"}))
+                                      if k.get("property") == "C09" else k for k in saved.get("findings", [])])
+    try:
+        ok = ctx.validate("Trace_Objective", cfg_trace(ctx), trace, name, DESCRIBE, meta, max_rejections=6)
+    finally:
+        ctx.known = saved
     # known deviations accepted by KFStep are printed by TLC as <<"KF", id>>
     fired = set()
     for p in glob.glob(os.path.join(ctx.work, name + "-*.out")):
@@ -113,12 +162,23 @@ def run(ctx):
     tr = os.path.join(ctx.work, "tour.trace.ndjson")
     ctx.harness("objective", "replay", **{"in": scen, "out": tr})
     validate(ctx, tr, "tour", {"driver": "objective", "mode": "replay"})
+    # (A) + (B) operands of extreme magnitude (mode "sci"): correct rounding of the lattice arithmetic over whole small
+    # formats (assumptions of MC_Objective), the model over f64's exponent range, every transition replayed
+    sc = ctx.tlc_mc("MC_Objective", cfg_sci(q), "mc-sci", workers=1, timeout=1500)
+    scen2, edges2 = vlib.export_scenarios(ctx, sc["out"], "tour-sci")
+    vlib.vacuity(edges2, "act.op", ["try_from", "neg", "add", "sub", "mul", "div"], "objective call (mode sci)")
+    vlib.vacuity(edges2, "res.k", ["ok", "err_nan", "err_neginf", "val", "illegal", "off"], "reply kind (mode sci)")
+    vlib.vacuity([e for e in edges2 if e["res"]["k"] == "val"], "res.c", ["neg", "zero", "pos", "posinf"],
+                 "class of a result (mode sci)")
+    tr3 = os.path.join(ctx.work, "tour-sci.trace.ndjson")
+    ctx.harness("objective", "replay", **{"in": scen2, "out": tr3, "fmt": "sci"})
+    validate(ctx, tr3, "tour-sci", {"driver": "objective", "mode": "replay", "fmt": "sci"})
     # (C) impl -> spec: operand-class sweep + float grid + random bit patterns
-    n, ln, nb = (8, 8, 4) if q else (400, 10, 200)
+    n, ln, nb, nsci = (8, 8, 4, 8) if q else (400, 10, 200, 300)
     tr2 = os.path.join(ctx.work, "random.trace.ndjson")
-    ctx.harness("objective", "random", out=tr2, seed=ctx.seed, n=n, len=ln, nb=nb)
+    ctx.harness("objective", "random", out=tr2, seed=ctx.seed, n=n, len=ln, nb=nb, nsci=nsci)
     validate(ctx, tr2, "random", {"driver": "objective", "mode": "random", "seed": ctx.seed, "n": n, "len": ln,
-                                  "nb": nb})
+                                  "nb": nb, "nsci": nsci})
     ctx.assumptions += [
         "design check bounded by inputs -%d..%d + specials, finite results |r| <= %d, lists <= %d, vectors <= %d over %s"
         % (mc[0], mc[0], mc[1], mc[2], mc[4], mc[3]),
@@ -127,6 +187,10 @@ def run(ctx):
         "adjacent-float clusters: 18 fixed magnitudes + %d seeded random bit patterns, values m, m +- 1, m +- 2 "
         "representable steps and their negatives; dense rank keeps neighbours distinct" % nb,
         "Mul/Div of SingleObjective take a raw f64 scalar (derive_more), which ranges over all classes incl. NaN/-inf",
+        "mode sci: operands are floats with <= 9 significant bits (exponents -1074..1023); the spec's lattice arithmetic "
+        "is checked to be correctly rounded on four small formats (pf, pl, lo, hi) = (2,2,-4,2), (4,2,-6,2), (3,2,-5,3), "
+        "(6,1,-8,2) and used with f64's parameters (52, 8, -1074, 1023); the code <-> float map of the harness "
+        "(lat_code / lat_float, bit manipulation only) is trusted",
     ]
     return ctx.finish(RULE)
 
@@ -136,11 +200,11 @@ def replay(ctx, rp):
     tr = os.path.join(ctx.work, "replay.trace.ndjson")
     if meta.get("mode") == "random":
         ctx.harness("objective", "random", out=tr, seed=meta["seed"], n=meta["n"], len=meta["len"],
-                    nb=meta.get("nb", 4))
+                    nb=meta.get("nb", 4), nsci=meta.get("nsci", 0))
     else:
         scen = os.path.join(ctx.work, "replay.scen.ndjson")
         with open(scen, "w") as f:
             f.write(json.dumps({"run": 0, "acts": rp["acts"]}) + "\n")
-        ctx.harness("objective", "replay", **{"in": scen, "out": tr})
+        ctx.harness("objective", "replay", **{"in": scen, "out": tr, "fmt": meta.get("fmt", "exact")})
     validate(ctx, tr, "replay", meta)
     return ctx.finish(RULE)
